@@ -177,7 +177,7 @@ func c09Prefixes(po, lo *out, hid string, kind string, n int, log []byte, every 
 	if len(rest) != 0 {
 		lens = append(lens, fmt.Sprintf("REST%d", len(rest)))
 	}
-	lo.printf("LOG %s %s %d %s %s\n", hid, kind, n, hex.EncodeToString(normalizeStream(log)), strings.Join(lens, ",")+",")
+	lo.printf("LOG %s %s %d %s %s\n", hid, kind, n, hex.EncodeToString(normalizeEncoded(log)), strings.Join(lens, ",")+",")
 	count := 0
 	for k := 0; k <= len(log); k++ {
 		near := false
